@@ -121,3 +121,24 @@ def rules(t):
     out = _rules_c20_w5(t)
     shared.share(t, out, "C20.j", "one damaged or forged datagram does not cut a healthy session off: advance_sequence only behind the decrypt Ok-edge", "C04", ("C04.a2",))
     return out
+
+_rules_c20_w5b = rules
+def rules(t):
+    import rules.wave5 as W5
+    out = _rules_c20_w5b(t)
+    out.append(W5.confirm_kinds(t, "C20.i"))
+    return out
+
+_rules_C20_sw = rules
+def rules(t, *a, **kw):
+    import rules.wave5 as W5
+    out = _rules_C20_sw(t, *a, **kw)
+    out.append(W5.size_window(t, "C20.k"))
+    return out
+
+_rules_C20_w6 = rules
+def rules(t, *a, **kw):
+    import rules.wave6 as W6
+    out = _rules_C20_w6(t, *a, **kw)
+    out.append(W6.client_refresh_total(t, "C20.l"))
+    return out
